@@ -67,6 +67,9 @@ CHECKS = {
         text="PARTIAL. Proved in Coq: over a FIFO with ANY chunking oracle (how many waiting bytes the OS reports per read, possibly 0) the reads concatenated equal the bytes sent, an idle read is empty, the bytes written are data_align p d, and - composing with the C03 refinement - a client extracts over any chunking exactly the frames it extracts over the ideal one-read link (C18_session_equivalent), which reduces the property's session claim to the pipe being a FIFO. NOT proved, explored only: that pyserial + the kernel tty layer are such a FIFO - real SerialDevice on an os.openpty() pseudo-terminal, all 256 byte values both ways, bursts up to 4096 bytes, varied writer pacing, idle-read latency, padding observed at the far end, and a full client session over the pty compared with the ideal link.",
         design="3/C18", technique="Coq proof of the client-side logic and of the reduction to a FIFO + exploration of pyserial on a pseudo-terminal (the OS half is not provable)", category="proof",
         note="Trusted for the proved half: Coq kernel, translator, C03 refinement. The OS/pyserial half is tested on a pty, not proved; a pty is not a UART (no baud/parity/hardware flow control)."),
+    "C20": dict(
+        text="Coq theorems: the client's frame reassembly written over an ARBITRARY codec record refines the one-pass scan with that codec's framing for every chunking, provided the codec honours the interface laws lawful2 (C20_reassembly_any_codec - the C03 refinement proof ported to the laws; two of the laws were discovered while porting, with counterexample codecs proved in the file: a negative declared length or an accepted empty frame break chunking-independence); the built-in codec is lawful and the generic model instantiated with it is the C03 model; every member of the parameterised family (start byte, header 3..8 with fields at any position, 1/2-byte length in either endianness, XOR or sum footer of 1..4 bytes) is lawful, hence reassembly behaves with each as with the built-in codec. Device-side dispatch and whole sessions with custom codecs (incl. CRC-32 footers, which have no Coq model) are covered by the harness: family members as ICommFrame subclasses through the real _read_frame (incl. all compositions), recv_handle with padded requests, and full CommHandler sessions with coalesced reads against a reference device speaking the codec; XOR/sum members are additionally compared with the extracted generic model.",
+        design="3/C20", technique="Coq proof (refinement generalised to a codec record with interface laws; family lawfulness) + harness with a family of real ICommFrame codecs"),
 }
 PENDING = {}
 
